@@ -934,6 +934,30 @@ def run_history(ctx, spec, length, r, reqs, pending):
         impl_obs[-1]['case'] = case
         if err is None and spatial and gerr is None:
             impl_obs[-1]['geom'] = observe_geom(g2)
+    # the randomised conveniences (compositions of the operations above with numpy-drawn arguments): oracle only
+    if r is not None and r.random() < 0.5:
+        np.random.seed(r.randrange(2 ** 31))
+        before = _snapshot(v)
+        for name, call, kind in (
+                ('random_flip_spatial', lambda: v.random_flip_spatial(r.choice([(0, 1, 2), (0, 2), (1, 2), (0, 1)])), 'flip'),
+                ('random_permute_spatial_axes', lambda: v.random_permute_spatial_axes(r.choice([(0, 1, 2), (0, 2), (1, 2), (0, 1)])), 'permute'),
+                ('random_spatial_crop', None, 'crop_to')):
+            case = {'hist': spec['idx'], 'step': 'end', 'op': {'op': name}}
+            try:
+                if name == 'random_spatial_crop':
+                    tgt = [r.randint(1, n) for n in v.spatial_shape]
+                    res = v.random_spatial_crop(tgt)
+                    rop = {'op': 'crop_to', 'shape': tgt}
+                else:
+                    res = call()
+                    rop = {'op': kind}
+            except Exception as e:  # noqa: BLE001
+                ctx.fail(case, {'what': f'{name} refused valid arguments: {type(e).__name__}: {e}'[:300]}, site=name)
+                continue
+            ctx.case(op=name, outcome='ok', nontrivial_key=(name, tuple(v.spatial_shape), spec['idx']))
+            oracle_step(ctx, case, v, res, rop, exact, name)
+        if _snapshot(v) != before:
+            ctx.fail({'hist': spec['idx'], 'step': 'end'}, {'what': 'a random_* method modified its input'}, site='random')
     if _snapshot(v0) != snap0:
         ctx.fail({'hist': spec['idx'], 'step': 'end'}, {'what': 'the original volume changed during the history'}, site='original')
     # model request
